@@ -14,6 +14,8 @@ import json
 import os
 
 from . import common, explore, srv, srv_alpha, srv_check, tlc
+from . import cli, cli_alpha
+from .tla_lit import lit
 
 BASE_INV = ['TypeOK']
 
@@ -56,17 +58,83 @@ PLAN = {
     },
 }
 
-WITNESS = {'D6': 'D6_NotObservable', 'D3': 'D3_NotTaken'}
+WITNESS = {'D6': 'D6_NotObservable', 'D3': 'D3_NotTaken',
+           'D5': 'D5_NotObservable'}
+
+PLAN.update({
+    'C08': {
+        'fam': 'client',
+        'inv': ['C08_Mirror', 'C08_FullyDisconnected', 'C08_ConnectOutcome',
+                'C08_BadNamespace', 'C08_HandlersOnce'],
+        'quick': ['cstate_quick'],
+        'thorough': ['cstate_fn', 'cstate_class'],
+    },
+    'C09': {
+        'fam': 'client',
+        'inv': ['C09_EventDispatch', 'C09_IssuedIdUnique', 'C09_AckOutcome',
+                'C09_IssuedMatchesCore'],
+        'quick': ['cacks_quick'],
+        'thorough': ['cacks_fn', 'cacks_class'],
+    },
+})
 
 
-def _cfg_for(name, dev):
-    cfg = dict(srv_alpha.CONFIGS[name])
+def _cli_consts(cfg):
+    return {'NsH': set(cfg['ns_h']), 'HKind': cfg.get('hkind', 'fn'),
+            'MaxAck': cfg.get('max_ack', 0), 'MaxSid': cfg['max_sid'],
+            'Reconnect': bool(cfg.get('reconnection', False)),
+            'Dev': set(cfg.get('dev', []))}
+
+
+FAMILIES = {
+    'server': dict(spec='SioServer', graph='SioServerGraph',
+                   configs=srv_alpha.CONFIGS, alpha=srv_alpha,
+                   consts=srv_check.consts,
+                   adapter=lambda c: srv.SrvAdapter(c)),
+    'client': dict(spec='SioClient', graph='SioClientGraph',
+                   configs=cli_alpha.CONFIGS, alpha=cli_alpha,
+                   consts=_cli_consts,
+                   adapter=lambda c: cli.CliAdapter(c)),
+}
+
+
+def _fam(pid):
+    return FAMILIES[PLAN[pid].get('fam', 'server')]
+
+
+def mc_module(fam, name, extends, cfg, alphabet):
+    c = fam['consts'](cfg)
+    lines = ['---- MODULE %s ----' % name, 'EXTENDS ' + extends, '']
+    for k, v in c.items():
+        lines.append('c_%s == %s' % (k, lit(v)))
+    lines.append('c_Alphabet == <<')
+    lines.append(',\n'.join('  ' + lit(a) for a in alphabet))
+    lines.append('>>')
+    lines.append('====')
+    cfgl = ['CONSTANTS']
+    for k in list(c) + ['Alphabet']:
+        cfgl.append('  %s <- c_%s' % (k, k))
+    return '\n'.join(lines), '\n'.join(cfgl) + '\n'
+
+
+class _Factory:
+    def __init__(self, fam_name, cfg):
+        self.fam_name = fam_name
+        self.cfg = cfg
+
+    def __call__(self):
+        return FAMILIES[self.fam_name]['adapter'](self.cfg)
+
+
+def _cfg_for(fam, name, dev):
+    cfg = dict(fam['configs'][name])
     cfg['dev'] = sorted(dev)
     return cfg
 
 
-def _tlc_g1(wd, cfg, alphabet, invariants, workers, view=False, tag='MC'):
-    mod, cfgc = srv_check.mc_module(tag, 'SioServer', cfg, alphabet)
+def _tlc_g1(fam, wd, cfg, alphabet, invariants, workers, view=False,
+            tag='MC'):
+    mod, cfgc = mc_module(fam, tag, fam['spec'], cfg, alphabet)
     if view:
         mod = mod.replace('====', 'CoreView == st\n====')
     cfgt = ('VIEW CoreView\n' if view else '') + 'INIT Init\nNEXT Next\n' + \
@@ -75,8 +143,8 @@ def _tlc_g1(wd, cfg, alphabet, invariants, workers, view=False, tag='MC'):
                        workers=workers)
 
 
-def _tlc_g2(wd, cfg, alphabet, gf, workers, tag):
-    mod, cfgc = srv_check.mc_module(tag, 'SioServerGraph', cfg, alphabet)
+def _tlc_g2(fam, wd, cfg, alphabet, gf, workers, tag):
+    mod, cfgc = mc_module(fam, tag, fam['graph'], cfg, alphabet)
     cfgt = 'INIT GInit\nNEXT GNext\n' + cfgc + \
         'INVARIANT AllEdgesOK\nINVARIANT AlphabetComplete\n'
     return tlc.run_tlc(os.path.join(wd, tag), tag, cfgt,
@@ -100,25 +168,27 @@ def _edge_no(text):
 
 def check_config(v, name, invariants, dev, variants=('threaded', 'asyncio')):
     """One configuration, both implementations.  Returns True when clean."""
-    cfg = _cfg_for(name, dev)
+    fam = _fam(v.pid)
+    fam_name = PLAN[v.pid].get('fam', 'server')
+    cfg = _cfg_for(fam, name, dev)
     wd = os.path.join(common.WORK, v.pid, name)
     os.makedirs(wd, exist_ok=True)
-    alphabet = getattr(srv_alpha, cfg['alpha'])(cfg)
-    en = srv_alpha.enabled(cfg)
+    alphabet = getattr(fam['alpha'], cfg['alpha'])(cfg)
+    en = fam['alpha'].enabled(cfg)
     clean = True
     with cf.ThreadPoolExecutor(4) as ex:
-        f1 = ex.submit(_tlc_g1, wd, cfg, alphabet, BASE_INV + invariants, 6)
-        f3 = ex.submit(_tlc_g1, wd, cfg, alphabet, [], 4, True, 'MCV')
+        f1 = ex.submit(_tlc_g1, fam, wd, cfg, alphabet, BASE_INV + invariants, 6)
+        f3 = ex.submit(_tlc_g1, fam, wd, cfg, alphabet, [], 4, True, 'MCV')
         graphs = {}
         for var in variants:
             c2 = dict(cfg, asyncio=(var == 'asyncio'))
-            g = explore.explore(srv_check.factory_for(c2), alphabet, en,
+            g = explore.explore(_Factory(fam_name, c2), alphabet, en,
                                 workers=12)
             gf = os.path.join(wd, 'graph_%s.json' % var)
             with open(gf, 'w') as f:
                 json.dump({'nodes': g['nodes'], 'out': g['out'],
                            'edges': g['edges']}, f)
-            graphs[var] = (g, gf, ex.submit(_tlc_g2, wd, cfg, alphabet, gf, 4,
+            graphs[var] = (g, gf, ex.submit(_tlc_g2, fam, wd, cfg, alphabet, gf, 4,
                                             'MCG_' + var))
             v.log('  [%s/%s] implementation graph: %d states, %d edges '
                   '(depth %d, %.1fs)' % (name, var, len(g['nodes']),
@@ -197,8 +267,8 @@ def run(pid, tier):
         'coverage.runs',
         'harness projection / token maps (cross-checked by G3)']
     for name in plan[tier]:
-        used = [d for d in devs if d in srv_alpha.CONFIGS[name].get('dev',
-                                                                    [])]
+        fam = _fam(pid)
+        used = [d for d in devs if d in fam['configs'][name].get('dev', [])]
         res = check_config(v, name, plan['inv'], used)
         if isinstance(res, tuple):
             # an implementation edge is not an edge of the spec-with-known-
@@ -226,10 +296,10 @@ def run(pid, tier):
                             'specification: ' + rep['verdict'], rep)
         # the intended design (no deviation) must satisfy the property
         if used:
-            cfg0 = _cfg_for(name, [])
-            alphabet = getattr(srv_alpha, cfg0['alpha'])(cfg0)
+            cfg0 = _cfg_for(fam, name, [])
+            alphabet = getattr(fam['alpha'], cfg0['alpha'])(cfg0)
             wd = os.path.join(common.WORK, pid, name)
-            r0 = _tlc_g1(wd, cfg0, alphabet, BASE_INV + plan['inv'], 12,
+            r0 = _tlc_g1(fam, wd, cfg0, alphabet, BASE_INV + plan['inv'], 12,
                          tag='MCD')
             v.log('  [%s] design (Dev={}): %d states, %s' % (
                 name, r0.distinct, 'ok' if r0.ok else r0.violation))
@@ -239,11 +309,11 @@ def run(pid, tier):
                 v.violation('the intended design violates %s' % r0.violation,
                             {'config': name, 'tlc_trace': r0.out[-6000:]})
             # witness: is the known finding still observable?
-            cfgw = _cfg_for(name, used)
+            cfgw = _cfg_for(fam, name, used)
             for k in known:
                 d = k.get('deviation')
                 if d in used and k['property'] == pid:
-                    rw = _tlc_g1(wd, cfgw, alphabet, [WITNESS[d]], 12,
+                    rw = _tlc_g1(fam, wd, cfgw, alphabet, [WITNESS[d]], 12,
                                  tag='MCW')
                     if rw.violation == WITNESS[d]:
                         v.known_finding(k['text'])
@@ -251,8 +321,8 @@ def run(pid, tier):
                         v.log('  note: known finding %s is no longer '
                               'reachable in %s' % (d, name))
     v.cov['rule'] = ('every action of the configuration alphabet from every '
-                     'reachable abstract state of the real Server and '
-                     'AsyncServer; distinct = distinct abstract states')
+                     'reachable abstract state of the real threaded and asyncio '
+                     'classes; distinct = distinct abstract states')
     v.cov['evaluations'] = v.cov['traces_validated_against_impl']
     v.cov['distinct_nontrivial'] = sum(r['impl_states']
                                        for r in v.cov['runs'])
@@ -263,7 +333,7 @@ def _devs_needed(pid):
     out = set()
     for tier in ('quick', 'thorough'):
         for name in PLAN[pid][tier]:
-            out.update(srv_alpha.CONFIGS.get(name, {}).get('dev', []))
+            out.update(_fam(pid)['configs'].get(name, {}).get('dev', []))
     return out
 
 
